@@ -77,6 +77,16 @@ func (x *Exec) intrinsic(st *State, fn *ssa.Function, args []Value, call *ssa.Ca
 		return x.intrinsicMust(st, "(time.Time).Sub", now, args[0]), true
 	case "time.Now":
 		return x.wallClock(st), true
+	case "time.Until":
+		now := x.wallClock(st)
+		return x.intrinsicMust(st, "(time.Time).Sub", args[0], now), true
+	case "(time.Time).Equal":
+		t, u := args[0].(TimeV), args[1].(TimeV)
+		return x.mkEq(x.timeKey(t), x.timeKey(u)), true
+	case "(time.Time).Compare":
+		t, u := args[0].(TimeV), args[1].(TimeV)
+		a, b := x.timeKey(t), x.timeKey(u)
+		return x.mkIte(x.mkCmp("bvslt", a, b), x.mkConst(64, ^uint64(0)), x.mkIte(x.mkCmp("bvsgt", a, b), x.mkConst(64, 1), x.mkConst(64, 0))), true
 	case "crypto/rand.Read":
 		return TupleV{x.mkConst(64, 8), IfaceV{nonnil: x.mkBool(false)}}, true
 	case "(encoding/binary.littleEndian).Uint64":
@@ -398,6 +408,19 @@ func (x *Exec) chanRecv(st *State, p PtrV, commaOk bool) Value {
 
 // selectOp supports the non-blocking single-receive form used by timer.drain.
 func (x *Exec) selectOp(st *State, i *ssa.Select) Value {
+	if !i.Blocking && len(i.States) == 1 && i.States[0].Dir == types.SendOnly {
+		// non-blocking send: goes through iff the buffer has room
+		p := x.val(st, i.States[0].Chan).(PtrV)
+		if p.obj >= 0 {
+			cd := st.heap[p.obj].(ChanData)
+			if len(cd.q) < cd.capacity {
+				cd.q = append(append([]Value(nil), cd.q...), x.val(st, i.States[0].Send))
+				st.heap[p.obj] = cd
+				return TupleV{x.mkConst(64, 0), x.mkBool(false)}
+			}
+		}
+		return TupleV{x.mkConst(64, ^uint64(0)), x.mkBool(false)}
+	}
 	if i.Blocking || len(i.States) != 1 || i.States[0].Dir != types.RecvOnly {
 		panic(internalErr{"unsupported select form"})
 	}
